@@ -411,6 +411,19 @@ func (a *Agg) Into(c *Ctx, prefix string) {
 	if len(a.EndMsgs) > 0 {
 		c.Cov(prefix+"path_end_reasons", topN(a.EndMsgs, 12))
 	}
+	// paths the engine could not follow carry no claim: say so on the console too (they are listed in the evidence)
+	if n := a.ByEnd["unsupported"]; n > 0 {
+		var why []string
+		for k, v := range a.EndMsgs {
+			if strings.HasPrefix(k, "unsupported") && !strings.Contains(k, "environment function") {
+				why = append(why, fmt.Sprintf("%s ×%d", strings.TrimPrefix(k, "unsupported: "), v))
+			}
+		}
+		sort.Strings(why)
+		if len(why) > 0 {
+			fmt.Printf("note: %s%d paths ended unsupported (no claim for them): %s\n", prefix, n, truncate(strings.Join(why, "; "), 300))
+		}
+	}
 	if len(a.RefAssumes) > 0 {
 		c.Cov(prefix+"reference_side_assumptions", a.RefAssumes)
 	}
